@@ -563,9 +563,8 @@ Example C03_gen_witness :
   go_lids_IteratorDesc_narrowLIDsRange (mk_go_IteratorDesc 4 8) [] true = GoSem.Panic /\
   tbl_ok (mkTable [1; 4]%N [3; 7]%N [false; true]).
 Proof.
-  cbv zeta. repeat split; try (vm_compute; reflexivity).
-  - unfold two32z. vm_compute. reflexivity.
-  - destruct i as [|[|[|i]]]; vm_compute; reflexivity.
-  - destruct i as [|[|[|i]]]; vm_compute; reflexivity.
-  - destruct i as [|[|[|i]]]; vm_compute; intros H; try discriminate H; reflexivity.
+  cbv zeta.
+  do 8 (split; [vm_compute; reflexivity|]).
+  unfold tbl_ok. split; [reflexivity|]. split; [reflexivity|]. split; [vm_compute; reflexivity|].
+  split; intros i; destruct i as [|[|[|i]]]; vm_compute; try (split; reflexivity); intros H; try discriminate H; reflexivity.
 Qed.
